@@ -43,6 +43,7 @@ void vfs_pre(int kind, const volatile void *p, size_t sz);
 void vfs_post(const volatile void *p, size_t sz, unsigned long long observed, unsigned long long now);
 void vfs_flag_cleared(const volatile void *f);
 void vfs_flag_lost(const volatile void *f);
+void vfs_flag_won(const volatile void *f);
 int vfs_sched_yield(void);
 #ifdef __cplusplus
 }
@@ -64,7 +65,7 @@ int vfs_sched_yield(void);
         vfs_post((p), sizeof *(p), (unsigned long long)vfs_ok, (unsigned long long)*(p)); vfs_ok; })
 #define atomic_compare_exchange_weak(p, e, d) atomic_compare_exchange_strong(p, e, d)
 #define atomic_flag_test_and_set(f) __extension__ ({ int vfs_o; vfs_pre(10, (f), sizeof *(f)); vfs_o = *(f); *(f) = 1; \
-        vfs_post((f), sizeof *(f), (unsigned long long)vfs_o, 1); if (vfs_o) vfs_flag_lost((f)); vfs_o != 0; })
+        vfs_post((f), sizeof *(f), (unsigned long long)vfs_o, 1); if (vfs_o) vfs_flag_lost((f)); else vfs_flag_won((f)); vfs_o != 0; })
 #define atomic_flag_clear(f) do { vfs_pre(11, (f), sizeof *(f)); *(f) = 0; vfs_post((f), sizeof *(f), 0, 0); vfs_flag_cleared((f)); } while (0)
 #define atomic_fetch_add_explicit(p, v, o) atomic_fetch_add(p, v)
 #define atomic_fetch_sub_explicit(p, v, o) atomic_fetch_sub(p, v)
